@@ -23,17 +23,20 @@ TRUSTED_BASE = [
     "an nx.Graph handed to add_graph has its edges between its own nodes (IGraph.WF); node/edge *order* in the model is "
     "insertion order and is not compared (both sides are sorted)",
     "gen/storeconsts.py: property-name constants and NO_UNSET_PROPERTIES read from abc_property_graph_constants.py",
-    "locks are not modelled (C20)",
+    "locks are not modelled (C20): the harness replaces the stores' threading.Lock by a counting stand-in (lib_store.TolerantLock) "
+    "so that the disjoint store's double release on a duplicate graph id (C20's defect) does not mask what an import did",
+    "the disjoint model treats a missing dictionary entry and an empty graph alike (true of the code since /repo 7bd45c1)",
 ]
 ASSUMPTIONS = [
     "operations do not write the GraphID property (re-homing a graph is C14's) and direct imports carry their own graph id "
     "on every node (ABCGraphImporter.get_graph_id enforces it); merge_nodes is C05/C14's",
     "single-threaded histories (C20 covers schedules)",
 ]
-RULE = ("operation histories (<= 30 ops) over 2-4 graph ids and 4 node ids on both store flavours: add/delete node, add link, "
+RULE = ("corpus first, then operation histories (<= 30 ops) over 2-4 graph ids and 4 node ids on both store flavours: add/delete node, add link, "
         "single/bulk/whole-graph property updates and unsets, import (node keys colliding with stored internal ids, repeated "
         "NodeIDs, missing NodeID), re-import, direct import, delete graph, clone; non-trivial = >= 2 graphs non-empty at some "
-        "point and >= 1 failing call; distinct by op-kind sequence")
+        "point and >= 1 failing call; distinct by op-kind sequence; plus all histories of depth 3 (quick) / 4 (thorough) over a "
+        "12-operation alphabet on two graph ids (import, failing re-import, add/delete node, whole-graph update, delete graph, clone)")
 
 CORPUS = os.path.join(core.CORPUS_DIR, "C04")
 
@@ -223,7 +226,25 @@ def check_history(flavour, h, res, seed=0):
     return be, clones
 
 
-def oracle(ctx, res, n=None, length=30):
+def small_alphabet():
+    """12 operations over two graph ids for the exhaustive small-scope enumeration"""
+    two = {"nodes": [{"NodeID": "n1", "Class": "NetworkNode"}, {"NodeID": "n2", "Class": "Link"}], "edges": [[0, 1, {"Class": "has"}]]}
+    bad = {"nodes": [{"NodeID": "n3", "Class": "Link"}, {"Class": "Link"}], "edges": [[0, 1, {"Class": "has"}]]}
+    A = []
+    for g, o in (("g1", "g2"), ("g2", "g1")):
+        A.append(["add_graph", g, two])
+        A.append(["add_node", g, "n1", "Link", {"p": "x"}])
+        A.append(["delete_node", g, "n1"])
+        A.append(["update_nodes_property", g, "p", "y"])
+        A.append(["delete_graph", g])
+        A.append(["clone", g, o])
+    A[0] = ["add_graph", "g1", bad]      # one failing re-import (deletes the old graph of that id first)
+    return A
+
+
+def oracle(ctx, res, n=None, length=30, depth=None):
+    import copy
+    import itertools
     hs = histories(ctx, "oracle", n or ctx.scale(250, 2500), length)
     for hi, (flv, h) in enumerate(hs):
         for flavour in flv:
@@ -232,12 +253,24 @@ def oracle(ctx, res, n=None, length=30):
             if clones:
                 res.count("%s:histories-with-clone" % flavour)
             res.nontrivial.add(flavour + L.kind_seq(h))
+    depth = depth or ctx.scale(3, 4)
+    A = small_alphabet()
+    seed_two = ["add_graph", "g1", {"nodes": [{"NodeID": "n1", "Class": "NetworkNode"}, {"NodeID": "n2", "Class": "Link"}],
+                                    "edges": [[0, 1, {"Class": "has"}]]}]
+    cnt = 0
+    for tail in itertools.product(A, repeat=depth):
+        h = [copy.deepcopy(seed_two)] + [copy.deepcopy(r) for r in tail]
+        for flavour in ("shared", "disjoint"):
+            check_history(flavour, h, res, seed=cnt)
+        cnt += 1
+    res.evaluations += 2 * cnt
+    res.count("exhaustive-depth-%d" % depth, 2 * cnt)
     res.sample({"flavours": hs[-1][0], "history": hs[-1][1][:5],
                 "checks": "frame on every non-addressed graph, internal ids, import/clone content"})
 
 
 def search(ctx, res, broken):
-    oracle(ctx, res, n=ctx.scale(2000, 10000), length=40)
+    oracle(ctx, res, n=ctx.scale(2000, 10000), length=40, depth=4)
 
 
 def replay(ctx, payload):
